@@ -258,6 +258,9 @@ def body(chk):
     # the nearest `@retry..` tag of a row expanded from an outline is its Examples block's: what expansion hands down
     from checks import c16
     c16.obligations(chk, 'C18')
+    # the resolved delay is carried from attempt to attempt unchanged (RetryOptions::next_try and the queue's round trip)
+    from checks import c05
+    c05.kernels(chk, 'C18')
 
 
 if __name__ == '__main__':
